@@ -70,6 +70,19 @@ pub fn spec(id: &str) -> Option<Spec> {
             total: Box::new(c11::total),
             generate: Box::new(c11::gen_case),
         }),
+        "C07" => Some(Spec {
+            id: "C07",
+            level: "exploration",
+            rule: "A case is a stream of documents (10 kinds: plain, anchors+aliases, merge keys, deep nesting, long scalars, two kinds whose type-level failure leaves containers open when recovery starts, sequences, nested anchors, generated) with one document under test. ALL histories up to length 3 (thorough: 4) with the last document under test, then random streams. For the document under test an independent event-count model (own pass over raw parser events, alias expansion included) gives the usage of every counter; each limit is set to the usage (must pass) and to usage-1 (must fail with the matching breach) through from_str, from_multiple, from_reader (seeded chunking), check_yaml_budget (raw counts, both policies); the report handed to the callback must equal the model; the ratio heuristic is probed at its two thresholds; the stream total is compared for from_multiple; and under per-document enforcement (read_with_options) the item of the document under test must be the same alone and after every history, for every counter at both limits. One evaluation = one library call. Non-trivial = iterator executions of a multi-document stream under a limit derived from the document under test; distinct = distinct (request trace, limit) digests.".into(),
+            assumptions: vec![
+                "target is an untyped tree (serde_json::Value) so that every event is consumed".into(),
+                "a tagged or quoted `<<` reached through an alias is excluded from exactness (replay drops the tag before counting)".into(),
+                "per-document `events` has no crisp definition (stream markers): differential only; what a per-document report holds at end of stream is not asserted".into(),
+            ],
+            components: components(),
+            total: Box::new(c07::total),
+            generate: Box::new(c07::gen_case),
+        }),
         _ => None,
     }
 }
@@ -81,6 +94,7 @@ pub fn exec(case: &Case, st: &mut Stats) -> Vec<Viol> {
         Case::C09(c) => c09::exec_agree(c, st),
         Case::C09B(c) => c09::exec_borrow(c, st),
         Case::C11(c) => c11::exec(c, st),
+        Case::C07(c) => c07::exec(c, st),
     }
 }
 
@@ -91,5 +105,6 @@ pub fn shrink_candidates(case: &Case) -> Vec<Case> {
         Case::C09(c) => c09::shrink_agree(c),
         Case::C09B(c) => c09::shrink_borrow(c),
         Case::C11(c) => c11::shrink(c),
+        Case::C07(c) => c07::shrink(c),
     }
 }
